@@ -141,3 +141,21 @@ def needs_quotes(v):
     """the config writer must quote v: leading or trailing whitespace, a comment character (# or ;), or CR/VT/FF anywhere."""
     n = len(v)
     return (n > 0 and (is_ws1(v[0]) or is_ws1(v[n - 1]))) or any(v[k] == 35 or v[k] == 59 or v[k] == 13 or v[k] == 11 or v[k] == 12 for k in range(0, n))
+
+
+def is_dir_mode(m):
+    """stat.S_ISDIR(m)"""
+    return (m // 4096) % 16 == 4
+
+
+def base_name_lt(a, adir, b, bdir):
+    """git's base_name_compare(a, mode_a, b, mode_b) < 0 (tree.c): memcmp on the common length, then the next
+    character, where a directory's name is followed by '/' and any other name by NUL."""
+    la = len(a)
+    lb = len(b)
+    m = la if la < lb else lb
+    differs = any(a[k] < b[k] and all(a[j] == b[j] for j in range(0, k)) for k in range(0, m))
+    common = all(a[j] == b[j] for j in range(0, m))
+    c1 = a[m] if m < la else (47 if adir else 0)
+    c2 = b[m] if m < lb else (47 if bdir else 0)
+    return differs or (common and c1 < c2)
